@@ -16,7 +16,17 @@ def affine_box(box, s, b):
     return [[s * lo + bj, s * hi + bj] for (lo, hi), bj in zip(box, b)]
 
 
-def run_points(case, box=None, labels=None, queries=None, wall_s=300, state_hook=None):
+def poison_heap(value):
+    """fills NumPy's small-block cache with freed blocks that hold `value` (nan / inf / 0): an implementation that
+    reads memory from np.empty before writing it behaves differently after different poisons"""
+    keep = []
+    for _ in range(3):
+        for nbytes in list(range(8, 1032, 8)):
+            keep.append(np.full(nbytes // 8, value, dtype=float))
+        keep.clear()
+
+
+def run_points(case, box=None, labels=None, queries=None, wall_s=300, state_hook=None, poison=None):
     """returns dict(points=[...], last=..., crash=str|None, box_after=..., qpoints=[...])"""
     box_in = copy.deepcopy(box if box is not None else case["box"])
     if case.get("alias_box"):
@@ -33,6 +43,8 @@ def run_points(case, box=None, labels=None, queries=None, wall_s=300, state_hook
     old = signal.signal(signal.SIGALRM, _alarm)
     signal.alarm(int(wall_s))
     try:
+        if poison is not None:
+            poison_heap(poison)
         np.random.seed(case["np_seed"])
         # build with the *same list objects* that we keep, to observe mutation of the user's input
         user_box = box_in
